@@ -134,6 +134,7 @@ class Tapes:
         self.svd = []   # (matrix, full_matrices, (U,S,V))
         self.fun = []   # (matrix, (U,S,V))
         self.eigh = []  # (matrix, (lam, W))
+        self.kw = []    # (label, n_eigenvecs, kwargs) of every top-level call of a candidate back end
 
 
 def run_interface(matrix, method, n, flip, ub, nn, mask, iters, kwargs):
@@ -168,6 +169,7 @@ def run_interface(matrix, method, n, flip, ub, nn, mask, iters, kwargs):
                 depth[0] -= 1
             if top:
                 tp.fun.append((label, np.array(m, dtype=float, copy=True), tuple(np.array(x, copy=True) for x in r)))
+                tp.kw.append((label, n_eigenvecs, dict(kw)))
             return r
         return w
 
@@ -830,7 +832,7 @@ def configs(tier, rng):
                 M = make_matrix(kind, shape, rng)
                 if M is None:
                     continue
-                ns = list(range(1, mx + 3)) + [None]
+                ns = list(range(0, mx + 3)) + [None]
                 for n in ns:
                     for method in ("truncated_svd", "symeig_svd", "randomized_svd", "callable"):
                         kw = {}
@@ -840,6 +842,22 @@ def configs(tier, rng):
                                 kw["n_oversamples"] = rng.choice([0, 1, 2])
                         for (flip, ub) in ((False, True), (True, True), (True, False)):
                             yield dict(matrix=M, kind=kind, method=method, n=n, flip=flip, ub=ub, nn=None, mask=None, iters=0, kwargs=kw)
+                # round 5: masked randomized_svd (its kwargs must reach the back end inside the imputation loop too), a callable with
+                # extra keyword arguments, a mask without n_eigenvecs (the imputation loop must be skipped), mask + non_negative
+                # (NNDSVDA's fill value is the mean of the LAST imputed matrix)
+                nm = rng.choice(sorted(set([1, min(shape)])))
+                extra = [
+                    dict(matrix=M, kind=kind, method="randomized_svd", n=nm, flip=True, ub=rng.random() < 0.5, nn=None,
+                         mask=make_mask(shape, rng), iters=rng.choice([1, 2]),
+                         kwargs={"random_state": rng.randrange(10 ** 6), "n_oversamples": rng.choice([2, 5]), "n_iter": rng.choice([0, 1, 2])}),
+                    dict(matrix=M, kind=kind, method="callable", n=nm, flip=True, ub=True, nn=None,
+                         mask=make_mask(shape, rng), iters=2, kwargs={"user_option": 3}),
+                    dict(matrix=M, kind=kind, method=rng.choice(["truncated_svd", "callable"]), n=None, flip=True, ub=True, nn=None,
+                         mask=make_mask(shape, rng), iters=2, kwargs={}),
+                    dict(matrix=np.abs(M), kind=kind + "+abs", method="truncated_svd", n=nm, flip=True, ub=True, nn=rng.choice(["nndsvd", "nndsvda"]),
+                         mask=make_mask(shape, rng), iters=rng.choice([1, 2]), kwargs={})]
+                for c_ in (rng.sample(extra, 2) if tier == "quick" else extra):     # quick: two of the four per matrix
+                    yield c_
                 # masks (n_eigenvecs must be given) and the non-negative option on a few requests per matrix
                 for n in sorted(set([1, min(shape), mx])):
                     for method in ("truncated_svd", "symeig_svd", "callable"):
@@ -938,6 +956,12 @@ def evaluate(cfg):
         return out, tp, cfg["matrix"], bad
     M_last = last_matrix(cfg, tp)
     bad = predicates(cfg, out, M_last)
+    if out[0] == "ok":
+        # "**kwargs: Arguments passed along to individual SVD algorithms" - on every call, also inside the mask loop
+        for (label, n_got, kw_got) in tp.kw:
+            if n_got != cfg["n"] or kw_got != cfg["kwargs"]:
+                bad.append(("C05_kwargs_forwarded", f"back end {label} called with n_eigenvecs={n_got!r}, kwargs={kw_got!r}; the request had n_eigenvecs={cfg['n']!r}, kwargs={cfg['kwargs']!r}"))
+                break
     if cfg["flip"] and cfg["nn"] in (None, False) and cfg["mask"] is None and not bad:
         out0, _ = run_interface(cfg["matrix"], cfg["method"], cfg["n"], False, cfg["ub"], cfg["nn"], None, 0, cfg["kwargs"])
         m = flip_keeps_product(cfg, out, out0)
